@@ -405,6 +405,14 @@ func (x *zsExec) client(c *zsClient) {
 	case 0:
 		c.replies++
 		srv, _ := r.llama.(*zsSrv)
+		if srv == nil && c.ctx.Err() != nil {
+			// the request had been abandoned (context cancelled = runner released) before it looked at what it was handed;
+			// the runner was alive at the hand-over and may legitimately have been unloaded since
+			mcrt.Observe("client%d (abandoned) handed a runner that was unloaded meanwhile", c.i)
+			c.cancelled = true
+			c.finished = true
+			return
+		}
 		if srv == nil {
 			// the runner was already torn down when it was handed over
 			mcrt.Fail("C01: request %d was handed a runner that has already been unloaded", c.i)
